@@ -15,7 +15,7 @@ PROPERTY_ID = 'C15'
 LEVEL = 'exploration'
 RULE = ('model-based generated call histories (10..40 operations) over a pool of 2..4 fitted samplers drawn from every sampler '
         'class (each univariate family, the selecting Univariate wrapper, Clayton/Frank/Gumbel, GaussianMultivariate incl. '
-        'conditional sampling, the three vines), each created with a seed given as int or RandomState, or unseeded. '
+        'conditional sampling, the three vines), each created with a seed given as int or RandomState (sometimes one RandomState object handed to several models), or unseeded. '
         'Operations: sample(i,n), conditional sample, set_random_state(i,s), np.random.seed(k), global draws, a sample call '
         'that raises, a bundled dataset generator. Invariants checked after every step: the full global RNG state is unchanged '
         'by operations on seeded models and by dataset generators; each seeded model\'s outputs equal those of an equal twin '
@@ -37,6 +37,8 @@ DATASETS = ['sample_bivariate_age_income', 'sample_trivariate_xyz', 'sample_univ
 def model_spec():
     seed = st.one_of(st.fixed_dictionaries({'kind': st.sampled_from(['int', 'RandomState']), 'value': st.integers(0, 2 ** 32 - 1)}),
                      st.fixed_dictionaries({'kind': st.sampled_from(['int', 'RandomState']), 'value': st.integers(0, 2 ** 32 - 1)}),
+                     # one RandomState *object* handed to several models (same small value => same object)
+                     st.fixed_dictionaries({'kind': st.just('RandomState'), 'value': st.integers(1, 2), 'shared': st.just(True)}),
                      st.just({'kind': 'none'}))
     uni = st.fixed_dictionaries({'kind': st.just('univariate'), 'cls': st.sampled_from(UNI), 'data_seed': S.SEEDS, 'seed': seed})
     biv = st.fixed_dictionaries({'kind': st.just('bivariate'), 'family': st.sampled_from(S.FAMILIES), 'tau': st.floats(0.1, 0.8), 'seed': seed})
@@ -65,9 +67,17 @@ def strategy():
                                   'global0': st.integers(0, 2 ** 32 - 1)})
 
 
+_SHARED = {}
+
+
 def make_seed(s):
     if s['kind'] == 'none':
         return None
+    if s.get('shared'):
+        # the same RandomState object for every model that asks for this value (reset per case by the oracle)
+        if s['value'] not in _SHARED:
+            _SHARED[s['value']] = np.random.RandomState(s['value'])
+        return _SHARED[s['value']]
     return s['value'] if s['kind'] == 'int' else np.random.RandomState(s['value'])
 
 
@@ -139,6 +149,7 @@ def oracle(case):
     from copulas import datasets
 
     np.random.seed(case['global0'])
+    _SHARED.clear()
     models, twins, seeded, logs = [], [], [], []
     for spec in case['models']:
         m = value(build, spec, what='build %s' % spec['kind'])
@@ -237,7 +248,7 @@ def oracle(case):
     interleaved = len(set(order)) >= 2 and any(order[k] != order[k + 1] for k in range(len(order) - 1))
     for spec in case['models']:
         cls.add('model:' + spec['kind'] + (':' + spec.get('cls', spec.get('family', spec.get('vine_type', ''))) if spec['kind'] != 'gaussian' else ''))
-        cls.add('seed:' + spec['seed']['kind'])
+        cls.add('seed:' + spec['seed']['kind'] + ('-shared-object' if spec['seed'].get('shared') else ''))
     return {'nontrivial': bool(interleaved and perturbed_between), 'classes': sorted(cls)}
 
 
